@@ -9,7 +9,7 @@ from ..wire import Sym, enc, lean_representable, request as rq
 
 ID = "C05"
 LEAN_MODULE = "BibVerif.Props.C05"
-RULE = ("grammar-derived documents (resolved and unresolved @string references, chains of @string aliases, digit-only values with leading zeros / non-ASCII digits in and outside the numeric fields, concatenations, numeric values, nested braces, "
+RULE = ("grammar-derived documents (resolved and unresolved @string references, chains of @string aliases, whitespace directly inside the enclosing (also after a backslash), digit-only values with leading zeros / non-ASCII digits in and outside the numeric fields, concatenations, numeric values, nested braces, "
         "multi-line values, comments between blocks, duplicate keys in a minority of documents) x BibtexFormat settings "
         "(indent in '', ' ', TAB, 4 spaces; value_column in 0..40 and 'auto'; trailing_comma; block_separator in '', NL, NLNL, ' NL'). "
         "Compared: the model of the whole default pipeline (splitter, Library.add, ResolveStringReferences, RemoveEnclosing, "
@@ -182,7 +182,35 @@ def _numeric_doc(rng):
     return "@a{k%d, %s}" % (rng.randint(0, 9), ", ".join(fs))
 
 
+def _inner_ws_doc(rng):
+    """whitespace directly inside the enclosing, also after a backslash (`Vol.\\ `): it is part of the content"""
+    inner = ["Vol.\\ ", " x ", "\n  text\n", "a\\\n", "\t", " {x} ", "Proc.\\ \t", "a \\ b ", ""]
+    fs = []
+    for i in range(rng.randint(1, 3)):
+        v = rng.choice(inner)
+        fs.append("f%d = %s" % (i, rng.choice(["{%s}", '"%s"']) % v))
+    pre = "@string{procs = %s}\n" % (rng.choice(["{%s}", '"%s"']) % rng.choice(inner)) if rng.random() < 0.5 else ""
+    ref = ", g = procs" if pre and rng.random() < 0.7 else ""
+    return pre + "@a{k%d, %s%s}" % (rng.randint(0, 9), ", ".join(fs), ref)
+
+
+def _src_values(text):
+    """the enclosed source values `= {...}` / `= "..."` of the hand-built families above (flat: no nested delimiter of
+    the same kind inside), read off the SOURCE text - independent of what the parser makes of them"""
+    return [m.group(1) if m.group(1) is not None else m.group(2)
+            for m in re.finditer(r'=\s*(?:\{((?:[^{}]|\{[^{}]*\})*)\}|"([^"]*)")\s*(?=[,}])', text)]
+
+
+def _content_reprintable(v):
+    """the content of a source value can be written between braces again: it does not end in an (unescaped) backslash"""
+    n = len(v) - len(v.rstrip("\\"))
+    return n % 2 == 0
+
+
 def gen(tier, rng):
+    for _ in range(80 if tier == "quick" else 800):
+        yield {"t": _inner_ws_doc(rng), "indent": rng.choice(INDENTS), "col": rng.choice(["auto", 0, 9]),
+               "sep": rng.choice(SEPS), "tc": rng.random() < 0.5, "flat": True}
     for _ in range(80 if tier == "quick" else 800):
         yield {"t": _numeric_doc(rng), "indent": rng.choice(INDENTS), "col": rng.choice(["auto", 0, 9]),
                "sep": rng.choice(SEPS), "tc": rng.random() < 0.5}
@@ -352,6 +380,14 @@ def content(blocks):
 def oracle(case):
     lib1, sig1, t1, lib2, sig2, t2 = _rt(case)
     if not wf5(case, lib1):
+        if case.get("flat"):
+            # a hand-built document with flat enclosed values: whether it is well formed is read off the SOURCE. If every
+            # source value can be written between braces again but the parsed library cannot, parsing changed a value
+            vals = _src_values(case["t"])
+            if vals and all(_content_reprintable(v) for v in vals):
+                got = [f.value for b in lib1.blocks if hasattr(b, "fields") for f in b.fields]
+                return ("the document is well formed (source values %r) but the parsed library is not re-printable: "
+                        "parsing turned the values into %r" % (vals, got))
         return None
     c1, c2 = content(lib1.blocks), content(lib2.blocks)
     if c1 != c2:
